@@ -184,6 +184,10 @@ class Run:
         failed = [o for o in failed if o not in expected]
         if not failed:
             return
+        unl = [o for o in failed if 'undefined function should be unreachable' in (o.desc or '')]
+        if unl:
+            # a call the extraction rules did not lower (a new helper in the changed body): an extraction limit, not a property violation
+            raise Undecided('the extracted body calls a function the lowering rules do not know (%s); the check cannot decide this variant of the code' % ', '.join(sorted(set(o.name.split('.')[0] for o in unl))))
         first = next((o for o in failed if o.trace), failed[0])
         inputs = {}
         if first.trace and check.inputs:
